@@ -16,14 +16,14 @@ type HandlerSet struct {
 
 // Dispatch is the predicted outcome of a request before any handler runs.
 type Dispatch struct {
-	Handler   string // "", "access", "get", "new", "call:<registered>", "auth:<registered>"
-	Response  string // "", "none", "system.notFound", "system.methodNotFound", "system.internalError"
-	PatID     int
-	Params    map[string]string
-	Group     string
-	RName     string
-	Method    string
-	RType     string
+	Handler  string // "", "access", "get", "new", "call:<registered>", "auth:<registered>"
+	Response string // "", "none", "system.notFound", "system.methodNotFound", "system.internalError"
+	PatID    int
+	Params   map[string]string
+	Group    string
+	RName    string
+	Method   string
+	RType    string
 }
 
 type reqPayload struct {
